@@ -69,7 +69,7 @@ def check_events(flow, run, hits):
         if tid in called:
             sc = run["scenario"].get(tid, "ok")
             want = {"ok": "TaskSuccess", "cancel": "TaskSuccess", "err": "TaskErrorRecovered" if t["fallback"] else "TaskError",
-                    "panic": "TaskPanicRecovered" if t["fallback"] else "TaskPanic"}["panic" if sc.startswith("panic") else sc]
+                    "panic": "TaskPanicRecovered" if t["fallback"] else "TaskPanic"}["panic" if sc.startswith("panic") else ("err" if sc.startswith("err") else sc)]
             if len(outs) != 1 or not outs[0].startswith(want + " "):
                 hits.setdefault("C18", []).append("task %s (%s) emitted outcome events %s, expected exactly one %s" % (tid, sc, outs, want))
             if len(dones) != 1:
@@ -356,7 +356,7 @@ def observe(seed, tier):
         for run in runs:
             f = byname[run["flow"]]
             lines.append(f.model_line() + " # " + " ".join(
-                "%s=%s" % (k, "panic" if v.startswith("panic") else v) for k, v in sorted(run["scenario"].items()) if v != "cancel"))
+                "%s=%s" % (k, "panic" if v.startswith("panic") else ("err" if v.startswith("err") else v)) for k, v in sorted(run["scenario"].items()) if v != "cancel"))
         preds = common.model_run("flowobs", lines) if lines else []
         graphs_checked = set()
         for run, pred in zip(runs, preds):
@@ -384,7 +384,7 @@ def observe(seed, tier):
                         lost_pred = {j: m for j, m in missing.items() if j.startswith("t") and ("q" + j[1:]) in m}
                         if lost_pred:
                             for p in ("C04", "C11"):
-                                hit(p, "task job(s) %s do not depend on the job of their own predicate: in a schedule that runs the task job first, a panic of the predicate is never reported and a false predicate does not skip the task" % sorted(lost_pred),
+                                hit(p, "task job(s) %s do not depend on the job of their own predicate: in a schedule that runs the task job first, a panic of the predicate is never reported (C04_lost_predicate_edge_refuted) and a task whose predicate returns true is not invoked (C11_lost_predicate_edge_refuted)" % sorted(lost_pred),
                                     {"flow": f.model_line(), "go_function": f.name(), "generated": got, "model": want, "module": mod})
                     else:
                         hit("GRAPH", "the Dependencies lists in the generated code have edges the model's job graph lacks: generated %s, model %s" % (gs, ws),
@@ -403,7 +403,7 @@ def observe(seed, tier):
                                  "observed": {k: run[k] for k in ("err", "results", "calls", "args", "events")},
                                  "model_prediction": pred, "all": msgs[:4], "module": mod})
             if len(summary.setdefault("coqcases", [])) < (8 if quick else 60) and summary["executions"] % 7 == 0 and not run.get("precancel"):
-                summary["coqcases"].append([f.model_line(), {k: ("panic" if v.startswith("panic") else v) for k, v in run["scenario"].items() if v != "cancel"}, pred])
+                summary["coqcases"].append([f.model_line(), {k: ("panic" if v.startswith("panic") else ("err" if v.startswith("err") else v)) for k, v in run["scenario"].items() if v != "cancel"}, pred])
             if len(summary["samples"]) < 3 and run["label"] != "allok":
                 summary["samples"].append({"flow": f.model_line(), "scenario": run["scenario"], "observed_err": run["err"],
                                            "observed_calls": run["calls"], "model": pred})
